@@ -168,6 +168,7 @@ func runC10(c *Ctx) {
 	p, r := c.P, c.R
 	r.Clauses = []string{
 		"C10.1 every compare-and-set function (discovered by data flow: a parameter-derived index compared with a stored ModifyIndex/index-table value) returns, on the mismatch edge, a tuple distinguishable from the applied one",
+		"C10.7 the comparison is not optional: with its match edges removed no write is reachable, except below row-absent / expected-zero edges (C10.6) and the off-side of a boolean mode flag",
 		"C10.2 every exported Store wrapper returning a bool reports true only on paths that passed Commit with a nil error and false only on paths that did not commit",
 		"C10.3 the boolean of every CAS function/wrapper is consumed at every call site",
 		"C10.4 the composite CA operation writes the config only below the act==true edge of the roots write",
@@ -182,6 +183,7 @@ func runC10(c *Ctx) {
 	// ---- C10.1
 	sites := discoverCAS(p)
 	r.Floor("C10.1", 19)
+	r.Floor("C10.7", 19)
 	casFuncs := map[*ssa.Function]bool{}
 	var discovered []string
 	for _, s := range sites {
@@ -265,9 +267,11 @@ func runC10(c *Ctx) {
 	for _, s := range sites {
 		ra := core.AccessOf(s.row)
 		if len(ra.Fields) == 0 || ra.LastField() != "ModifyIndex" {
-			continue // table index / helper-folded comparison: absence is not a separate case
+			// table index / helper-folded comparison: absence is not a separate case (C10.7 only)
+			checkAbsentRowNeedsZero(c, s, ra, true)
+			continue
 		}
-		checkAbsentRowNeedsZero(c, s, ra)
+		checkAbsentRowNeedsZero(c, s, ra, false)
 	}
 	r.Floor("C10.6", 10)
 
@@ -434,7 +438,7 @@ func accessString(a core.Access) string {
 	return n + "." + strings.Join(a.Fields, ".")
 }
 
-func checkAbsentRowNeedsZero(c *Ctx, s casSite, ra core.Access) {
+func checkAbsentRowNeedsZero(c *Ctx, s casSite, ra core.Access, only7 bool) {
 	p, r := c.P, c.R
 	f := s.fn
 	construct := core.FuncName(f) + "/" + s.stored
@@ -465,6 +469,7 @@ func checkAbsentRowNeedsZero(c *Ctx, s casSite, ra core.Access) {
 		return len(a.Fields) == 0 && a.Root == root
 	}
 	cut := map[core.Edge]bool{}
+	cut7 := map[core.Edge]bool{}       // C10.7: row-absent edges and expected-zero edges (governed by C10.6)
 	classified := map[core.Edge]bool{} // edges of row-nil / expected-zero tests (either direction)
 	expKey := accessString(core.AccessOf(s.exp))
 	nNilTests := 0
@@ -485,12 +490,15 @@ func checkAbsentRowNeedsZero(c *Ctx, s casSite, ra core.Access) {
 				}
 				if other != nil && isAlias(other) {
 					nNilTests++
-					nonNil := te
+					nonNil, isNil := te, fe
 					if x.Op == token.EQL {
-						nonNil = fe
+						nonNil, isNil = fe, te
 					}
 					for _, e := range nonNil {
 						cut[e] = true
+					}
+					for _, e := range isNil {
+						cut7[e] = true
 					}
 					for _, e := range append(append([]core.Edge{}, te...), fe...) {
 						classified[e] = true
@@ -511,6 +519,7 @@ func checkAbsentRowNeedsZero(c *Ctx, s casSite, ra core.Access) {
 					}
 					for _, e := range zero {
 						cut[e] = true
+						cut7[e] = true
 					}
 					for _, e := range append(append([]core.Edge{}, te...), fe...) {
 						classified[e] = true
@@ -523,6 +532,9 @@ func checkAbsentRowNeedsZero(c *Ctx, s casSite, ra core.Access) {
 					te, fe := core.CondEdges(x)
 					for _, e := range te {
 						cut[e] = true
+					}
+					for _, e := range fe {
+						cut7[e] = true
 					}
 					for _, e := range append(append([]core.Edge{}, te...), fe...) {
 						classified[e] = true
@@ -550,6 +562,89 @@ func checkAbsentRowNeedsZero(c *Ctx, s casSite, ra core.Access) {
 				cut[core.Edge{From: b, Succ: 1 - si}] = true
 			}
 		}
+	}
+	// ---- C10.7: the comparison is not optional. With its match edges removed (and the
+	// row-absent / expected-zero edges, which C10.6 governs, and the off-side of a pure
+	// boolean mode flag such as opts.CAS), no write may be reachable.
+	{
+		te, fe := condEdgesOf(s.cmp)
+		match := fe
+		if s.cmp.Op == token.EQL {
+			match = te
+		}
+		c7 := map[core.Edge]bool{}
+		for e := range cut7 {
+			c7[e] = true
+		}
+		for _, e := range match {
+			c7[e] = true
+		}
+		pureBool := func(v ssa.Value) bool {
+			for i := 0; i < 3; i++ {
+				if u, ok := v.(*ssa.UnOp); ok && u.Op == token.NOT {
+					v = u.X
+					continue
+				}
+				break
+			}
+			if _, isCmp := v.(*ssa.BinOp); isCmp {
+				return false
+			}
+			if b, ok := v.Type().Underlying().(*types.Basic); !ok || b.Kind() != types.Bool {
+				return false
+			}
+			a := core.AccessOf(v)
+			_, isParam := a.Root.(*ssa.Parameter)
+			return isParam
+		}
+		for _, b := range f.Blocks {
+			if len(b.Instrs) == 0 || len(b.Succs) != 2 {
+				continue
+			}
+			iff, ok := b.Instrs[len(b.Instrs)-1].(*ssa.If)
+			if !ok || !pureBool(iff.Cond) {
+				continue
+			}
+			for si := range b.Succs {
+				if core.EdgeDominates(b, si, s.cmp.Block()) {
+					c7[core.Edge{From: b, Succ: 1 - si}] = true
+				}
+			}
+		}
+		var hit7 ssa.Instruction
+		w7 := &core.Walk{
+			Cut: func(b *ssa.BasicBlock, si int) bool { return c7[core.Edge{From: b, Succ: si}] },
+			Visit: func(in ssa.Instruction) {
+				if hit7 != nil {
+					return
+				}
+				if op := core.AsMemdbOp(in); op != nil {
+					if op.IsWrite() {
+						hit7 = in
+					}
+					return
+				}
+				if ci, ok := in.(ssa.CallInstruction); ok {
+					if _, isDefer := in.(*ssa.Defer); isDefer {
+						return
+					}
+					if g := ci.Common().StaticCallee(); g != nil && mayWrite(p, g) {
+						hit7 = in
+					}
+				}
+			},
+		}
+		w7.FromEntry(f)
+		if len(match) == 0 {
+			r.Undecide("C10.7", construct, pos, "the comparison does not feed a branch")
+		} else if hit7 != nil {
+			r.Violate("C10.7", construct, pos, fmt.Sprintf("the write at %s is reachable without the expected index having been compared and found equal (the comparison is skipped under a condition that is neither 'row absent', 'expected index zero' nor a boolean mode flag): a request with a stale expected index is applied and reported as applied", p.Pos(hit7.Pos())), w7.PathTo(p, hit7.Block())...)
+		} else {
+			r.Hold("C10.7", construct, pos, "every write lies below the comparison's match edge (or below row-absent / expected-zero / non-CAS-mode edges)")
+		}
+	}
+	if only7 {
+		return
 	}
 	var hit ssa.Instruction
 	w := &core.Walk{
